@@ -223,6 +223,48 @@ def check_absolute(form, local, delta_h, wall):
     return out
 
 
+def fold_cases():
+    """acknowledgement / snooze given in the SAME zone object as the trigger, inside the repeated hour: instants decide, not wall clocks"""
+    import icalendar
+    from icalendar.alarms import Alarms
+    from zoneinfo import ZoneInfo
+    out = []
+    for prov in ("zoneinfo", "pytz"):
+        icalendar.timezone.tzp.use(prov)
+        try:
+            z = ZoneInfo("Europe/Berlin")
+            trig = datetime(2021, 10, 31, 2, 30, tzinfo=z)                   # first 02:30 (+02:00) = 00:30Z
+            for label, ack, want_active in (("ack 02:10 second occurrence (01:10Z)", datetime(2021, 10, 31, 2, 10, fold=1, tzinfo=z), False),
+                                            ("ack 02:10 first occurrence (00:10Z)", datetime(2021, 10, 31, 2, 10, tzinfo=z), True),
+                                            ("ack 01:10Z given in UTC", datetime(2021, 10, 31, 1, 10, tzinfo=timezone.utc), False)):
+                a = icalendar.Alarm()
+                a.TRIGGER = timedelta(0)
+                al = Alarms()
+                al.add_alarm(a)
+                al.set_start(trig)
+                al.acknowledge_until(ack)
+                got = observe(lambda: [t.is_active() for t in al.times])
+                if got != ("ok", [want_active]):
+                    out.append(f"[{prov}] trigger {trig.isoformat()} (00:30Z), {label}: is_active {got!r}, statement {want_active}")
+                acked = observe(lambda: al.times[0].acknowledged)
+                if acked[0] == "ok" and acked[1] is not None and acked[1].utcoffset() != timedelta(0):
+                    out.append(f"[{prov}] {label}: acknowledged-until is reported as {acked[1]!r}, not as a UTC instant")
+            # snooze inside the fold, later instant than the acknowledgement
+            a = icalendar.Alarm()
+            a.TRIGGER = timedelta(0)
+            al = Alarms()
+            al.add_alarm(a)
+            al.set_start(trig)
+            al.acknowledge_until(datetime(2021, 10, 31, 2, 40, tzinfo=z))            # 00:40Z
+            al.snooze_until(datetime(2021, 10, 31, 2, 35, fold=1, tzinfo=z))         # 01:35Z: later than the acknowledgement
+            got = observe(lambda: [t.is_active() for t in al.times])
+            if got != ("ok", [True]):
+                out.append(f"[{prov}] snoozed until 02:35 second occurrence (01:35Z), acknowledged 02:40 first occurrence (00:40Z): is_active {got!r}, statement True")
+        finally:
+            icalendar.timezone.tzp.use_default()
+    return out
+
+
 def monotonic_cases(n):
     ts = instants(n)
     opt = [None] + ts
@@ -272,6 +314,9 @@ def run(b, tier, seed):
                                                    "detail": f"active with ack {a2} but not with the earlier ack {a1}", "kind": "is_active"})
         finally:
             icalendar.timezone.tzp.use_default()
+    cases += 8
+    for m in fold_cases():
+        fails.setdefault("fold" + m[:40], {"witness": {"fold": True}, "detail": m, "kind": "is_active"})
     b.cases = cases
     b.nontrivial = len(distinct)
     b.failures = list(fails.values())[:12]
@@ -297,6 +342,8 @@ def replay_witness(w):
     import datetime as _d  # noqa
     import zoneinfo  # noqa
     env = {"datetime": _d, "zoneinfo": zoneinfo}
+    if w.get("fold"):
+        return "; ".join(fold_cases()) or None
     if "table" in w:
         trig, a, c, s = [eval(x, env) for x in w["table"]]
         res = check_case(trig, a, c, s)
